@@ -35,10 +35,29 @@ def run(ctx):
     ents = c04_entries(P)
     builders = [q for q in ('CommitBuilder::build', 'CommitBuilder::build_detached') if P.has_fn(q)]
     sums, fa = run_entries(P, ents + builders, mode='storage')
-    for e in ents:
-        ctx.check('FAIL-ATOMIC(storage)', e, lambda P_, e=e: fail_atomic(P_, e, sums[e], EXEMPT))
-    for e in builders:
-        ctx.check('FAIL-ATOMIC(storage)', e, lambda P_, e=e: fail_atomic(P_, e, sums[e], EXEMPT, under=['group']))
+    from ..core.fa_rule import fail_atomic_grouped, mod_paths
+    under_map = {b: ['group'] for b in builders}
+    groups, used = fail_atomic_grouped(P, ents + builders, sums, EXEMPT, under_map)
+
+    def clean(P_):
+        r = Res()
+        dirty_entries = set(e for g in groups.values() for e in g['entries'])
+        for e in ents + builders:
+            r.site('%s: %s' % (e, 'a storage fault can leave state behind' if e in dirty_entries else 'storage-fault atomic'))
+        r.detail = {'entries': len(ents + builders), 'exemptions_used': used}
+        return r
+    ctx.check('FAIL-ATOMIC(storage)', 'entries analysed', clean, floor=10)
+    for (path, w), g in sorted(groups.items()):
+        def one(P_, path=path, w=w, g=g):
+            r = Res()
+            for e in sorted(g['entries']):
+                r.site(e)
+            whys = sorted(set(g['whys']))
+            r.bad('entries=' + ','.join(sorted(g['entries'])),
+                  'a failing storage call leaves the member changed: `%s` is written in `%s` and a storage call that can still fail follows '
+                  '(in %s), in operations: %s (%s)' % (path, w, ', '.join(sorted(g['ffs']))[:300], ', '.join(sorted(g['entries'])), whys[0]), where=whys[:4])
+            return r
+        ctx.check('FAIL-ATOMIC(storage)', 'path=%s|writer=%s' % (path, w), one)
     ctx.check('STORAGE-CHECKED', 'every storage call result is checked in place',
               lambda P_: checked_calls(P_, r'(GroupStateStorage|KeyPackageStorage|PreSharedKeyStorage)::(state|epoch|write|max_epoch_id|get|insert|delete|contains)$',
                                        fn_rx=None), floor=8)
